@@ -281,7 +281,7 @@ namespace nmtools::index
             for (nm_size_t i=0; i<(nm_size_t)n_planes; i++) {
                 if constexpr (meta::is_index_array_v<dilation_t>) {
                     // assume same length as n_planes
-                    at(result,i) = at(dilation,i) - 1;
+                    at(result,i) = at(dilation,(nm_index_t)n_planes-1-(nm_index_t)i) - 1;
                 } else {
                     at(result,i) = dilation - 1;
                 }
